@@ -33,9 +33,9 @@ def run(ctx):
                             "executed transition ran callbacks of >=3 groups (or internal + event-scoped callback)")
     from framework import run_py_corpus
     ctx.coverage["corpus_programs"] = run_py_corpus(ctx)
-    engine_check(ctx, PROFILE, 800, 20000, nontrivial, monitor=c02_monitor, tag="C02s")
+    engine_check(ctx, PROFILE, 800, 20000, nontrivial, monitor=c02_monitor, tag="C02s", mutate=gen.late_listeners)
     cov1 = dict(ctx.coverage)
-    engine_check(ctx, PROFILE_ASYNC, 300, 8000, nontrivial, monitor=c02_monitor, tag="C02a")
+    engine_check(ctx, PROFILE_ASYNC, 300, 8000, nontrivial, monitor=c02_monitor, tag="C02a", mutate=gen.late_listeners)
     for k in ("evaluations", "distinct_nontrivial", "traces_validated_against_impl", "disagreements", "monitor_failures"):
         ctx.coverage[k] = ctx.coverage.get(k, 0) + cov1.get(k, 0)
     ctx.coverage["distribution_sync"] = cov1.get("distribution")
